@@ -618,6 +618,52 @@ class _DictCall(ast.NodeTransformer):
         return node
 
 
+def _unique_signatures(repo_root):
+    """method / function name -> positional parameter names (without self / cls), for names defined exactly once in the package
+    with a plain signature (no *args / **kwargs / positional-only / keyword-only parameters)"""
+    sigs, seen = {}, {}
+    for rel, src in package_sources(repo_root).items():
+        for n in ast.walk(ast.parse(src)):
+            if isinstance(n, ast.FunctionDef):
+                seen[n.name] = seen.get(n.name, 0) + 1
+                a = n.args
+                if a.vararg or a.kwarg or a.posonlyargs or a.kwonlyargs or n.name.startswith("__") or \
+                        any(isinstance(d, ast.Name) and d.id in ("property", "staticmethod", "classmethod") or
+                            isinstance(d, ast.Attribute) for d in n.decorator_list):
+                    continue
+                names = [x.arg for x in a.args]
+                if names and names[0] in ("self", "cls"):
+                    sigs[n.name] = names[1:]
+    return {k: v for k, v in sigs.items() if seen.get(k) == 1 and v}
+
+
+def positional_to_keyword(repo_root):
+    """positional arguments of calls to the package's own (uniquely named) methods are written as keywords:
+    `self.pad(widths, "wrap")` -> `self.pad(pad_width=widths, mode="wrap")`"""
+    sigs = _unique_signatures(repo_root)
+
+    class T(ast.NodeTransformer):
+        def visit_Call(self, node):
+            self.generic_visit(node)
+            if isinstance(node.func, ast.Attribute) and node.func.attr in sigs and node.args and \
+                    not any(isinstance(a, ast.Starred) for a in node.args) and not any(k.arg is None for k in node.keywords) and \
+                    isinstance(node.func.value, (ast.Name, ast.Attribute)) and \
+                    (ast.unparse(node.func.value).split(".")[0] in ("self", "field", "mesh", "region", "other", "cls")):
+                names = sigs[node.func.attr]
+                if len(node.args) <= len(names) and not ({k.arg for k in node.keywords} & set(names[:len(node.args)])):
+                    node.keywords = [ast.keyword(arg=n_, value=a) for n_, a in zip(names, node.args)] + node.keywords
+                    node.args = []
+            return node
+    out = {}
+    for rel, src in package_sources(repo_root).items():
+        tree = T().visit(ast.parse(src))
+        ast.fix_missing_locations(tree)
+        new = ast.unparse(tree)
+        compile(new, rel, "exec")
+        out[rel] = new
+    return out
+
+
 def _apply(cls):
     def run(repo_root):
         out = {}
@@ -643,4 +689,4 @@ EXTRA.update({"unnest-else": _apply(_ElseUnnester), "nest-else": _apply(_ElseNes
               "result-temporary": _apply(_ResultTemporary), "alias-self-attributes": _apply(_SelfAttrAlias),
               "swap-comparisons": _apply(_CompareSwap), "comprehension-to-loop": _apply(_CompToLoop),
               "split-isinstance": _apply(_IsinstanceSplit), "split-chained-comparisons": _apply(_ChainSplit),
-              "dict-call": _apply(_DictCall)})
+              "dict-call": _apply(_DictCall), "positional-to-keyword": positional_to_keyword})
